@@ -60,14 +60,15 @@ theorem no_live_id_reuse_sqlite {s s' : Sqlite.St D} (hI : Sqlite.Inv s) {b : St
   ⟨(Sqlite.insertOne_view' hI h).2.2, (Sqlite.insertOne_view' hI h).2.1⟩
 
 /-- replace-last on a non-empty bucket rewrites exactly one position of the list, the one holding a
-    newest event `t`; it keeps `t`'s id; `t` is the event the limit-1 read returns (for Sqlite's
-    unbounded read this needs `t` to end at or after the epoch: the read adds `endtime >= 0`);
+    newest event `t`; it keeps `t`'s id; `t` is the event the limit-1 read returns (repaired, F22:
+    wherever `t` ends — Sqlite's unbounded read has no lower bound; before the repair it added
+    `endtime >= 0` and this conjunct carried the hypothesis `0 ≤ t.ts + t.dur`);
     no other event of the bucket and no other bucket changes -/
 theorem replaceLast_hits_limit1_sqlite {s : Sqlite.St D} (hI : Sqlite.Inv s) {b : String}
     {m : Meta} {es : List (Ev D)} (hv : Sqlite.view s b = some (m, es)) (hne : es ≠ [])
     (hint : Option Int) (e : Ev D) :
     ∃ t i l1 l2, Spec.IsNewest es t ∧ t.id = some i ∧
-      (0 ≤ t.ts + t.dur → Sqlite.getEvents s b 1 none none = [t]) ∧
+      Sqlite.getEvents s b 1 none none = [t] ∧
       es = l1 ++ t :: l2 ∧ (∀ x ∈ l1 ++ l2, x.id ≠ some i) ∧
       Sqlite.view (Sqlite.step s (.replaceLast b hint e)) b =
         some (m, l1 ++ { e with id := some i } :: l2) ∧
@@ -374,13 +375,28 @@ example : AdmissibleDet Sqlite.view Sqlite.step .sqlite Sqlite.exS
   have e2 := List.mem_singleton.mp ht'.1
   rw [e1, e2]
 
-/-- why `replaceLast_hits_limit1_sqlite` carries `0 ≤ t.ts + t.dur`: Sqlite's unbounded read adds
-    `endtime >= 0`, so an event that ends before the epoch is stored (and is what replace-last
-    rewrites) but is not returned by the limit-1 read -/
+/-- history of repair F22. `replaceLast_hits_limit1_sqlite` used to carry `0 ≤ t.ts + t.dur` on its
+    read conjunct: Sqlite's unbounded read added `endtime >= 0`, so on this state an event that ends
+    before the epoch was stored (and was what replace-last rewrites) but the limit-1 read returned
+    `[]`. On the same witness the repaired read returns that event. -/
 example : Sqlite.Inv Sqlite.cexLast ∧
     Sqlite.view Sqlite.cexLast "a" = some (default, [{ id := some 1, ts := -10, dur := 5, data := () }]) ∧
-    Sqlite.getEvents Sqlite.cexLast "a" 1 none none = [] :=
-  ⟨Sqlite.cexLast_inv, Sqlite.replaceLast_read_counterexample⟩
+    Sqlite.getEvents Sqlite.cexLast "a" 1 none none = [{ id := some 1, ts := -10, dur := 5, data := () }] :=
+  ⟨Sqlite.cexLast_inv, Sqlite.replaceLast_read_before_epoch_now_read⟩
+
+/-- `replaceLast_hits_limit1_sqlite` on that state (its only event ends before the epoch): the event
+    `t` that replace-last rewrites is the one the limit-1 read returns -/
+example : ∃ t i l1 l2, Spec.IsNewest [({ id := some 1, ts := -10, dur := 5, data := () } : Ev Unit)] t ∧
+    t.id = some i ∧ Sqlite.getEvents Sqlite.cexLast "a" 1 none none = [t] ∧
+    [({ id := some 1, ts := -10, dur := 5, data := () } : Ev Unit)] = l1 ++ t :: l2 ∧
+    (∀ x ∈ l1 ++ l2, x.id ≠ some i) ∧
+    Sqlite.view (Sqlite.step Sqlite.cexLast (.replaceLast "a" none ⟨none, -7, 1, ()⟩)) "a" =
+      some (default, l1 ++ { (⟨none, -7, 1, ()⟩ : Ev Unit) with id := some i } :: l2) ∧
+    ∀ b', b' ≠ "a" →
+      Sqlite.view (Sqlite.step Sqlite.cexLast (.replaceLast "a" none ⟨none, -7, 1, ()⟩)) b' =
+        Sqlite.view Sqlite.cexLast b' :=
+  replaceLast_hits_limit1_sqlite Sqlite.cexLast_inv Sqlite.replaceLast_read_before_epoch_now_read.1
+    (by simp) none ⟨none, -7, 1, ()⟩
 
 /-- why `Pre` asks that ids carried into insert-many are live: in the memory backend a batch
     `[new, carrying id 0]` into an empty bucket gives the new event id 0 and then overwrites it -/
